@@ -802,7 +802,10 @@ func runC17(c *run.Ctx) {
 		for k := 0; k < perSchema; k++ {
 			dc := gen.Doc(r, meta, gen.DocOpts{Frags: true, Vars: true, Aliases: true, Dirs: k%3 == 0, Depth: 3 + r.Intn(3), MaxSels: 5, MaxOps: 2})
 			// aim most __type lookups at existing names
-			names := []string{"Int", "String", "Nope_zz"}
+			names := []string{"Int", "String", "Nope_zz", "skip", "deprecated"} // directive names are not type names: __type answers null
+			for _, d := range ms.Dirs {
+				names = append(names, d.Name)
+			}
 			for _, t := range ms.Types {
 				names = append(names, t.Name)
 			}
